@@ -42,10 +42,18 @@ enum Op {
     ConvertQ(usize),
     /// a small parse whose analysis looks up several units (timers, references)
     UnitParse(usize),
+    /// `ScaledQuantity::try_fraction`: the shortest public path to the per-unit fractions configuration
+    TryFraction(usize),
 }
 
 const UNITS: &[&str] = &["g", "min", "ml", "kg", "tsp", "h", "cup", "lb", "nope", "°C", "s", "l"];
-const QUANTS: &[(f64, &str)] = &[(250.0, "g"), (1.5, "l"), (2.0, "cup"), (12.0, "oz"), (90.0, "min"), (3.0, "tsp")];
+const QUANTS: &[(f64, &str)] = &[
+    (250.0, "g"), (1.5, "l"), (2.0, "cup"), (12.0, "oz"), (90.0, "min"), (3.0, "tsp"),
+    // units whose internal ids collide in small direct-mapped tables, and values that the
+    // fractions configuration of their unit decides how to print
+    (3.5, "tsp"), (250.0, "ml"), (2.5, "g"), (1.5, "fl oz"), (1.5, "cup"), (0.75, "lb"), (500.0, "mg"),
+    (1.5, "kg"), (1.5, "h"), (1.5, "tbsp"), (2.0, "day"), (0.333, "cup"),
+];
 const UNIT_INPUTS: &[&str] = &[
     ">> time: 1 hour 30 min\n>> prep time: 20 minutes\nBoil @water{1%l} for ~{10%min}.\n",
     ">> cook time: 2 hours\n>> servings: 2\nBake ~{1%h}. Heat to 180 °C.\n",
@@ -89,6 +97,12 @@ fn run(parsers: &[CooklangParser], op: Op) -> String {
             format!("{r:?} {fit:?} {q:?}")
         }
         Op::UnitParse(i) => format!("{:?}", parsers[0].parse(UNIT_INPUTS[i])),
+        Op::TryFraction(k) => {
+            let (v, u) = QUANTS[k];
+            let mut q = cooklang::ScaledQuantity::new(cooklang::Value::Number(v.into()), Some(u.to_string()));
+            let ok = q.try_fraction(parsers[0].converter());
+            format!("{ok} {q:?}")
+        }
         Op::Approx(k) => {
             let (v, a, d, w) = APPROX[k];
             format!("{:?}", Number::new_approx(v, a, d, w))
@@ -105,19 +119,32 @@ fn main() {
     }
     let seed: u64 = args.get(2).and_then(|s| s.parse().ok()).unwrap_or(0);
     let full = shape == "full";
-    let conv = shape == "conv";
+    let fit = shape == "fit";
+    let conv = shape == "conv" || fit;
     let parsers: Arc<Vec<CooklangParser>> = Arc::new(if full || conv {
         vec![CooklangParser::extended(), CooklangParser::new(Extensions::COMPAT, Converter::empty())]
     } else {
         vec![CooklangParser::new(Extensions::all(), Converter::empty()), CooklangParser::canonical()]
     });
-    let nthreads = if conv { 3 } else { 2 + (mix(seed, 1) % 2) as usize };
+    let nthreads = if fit { 4 } else if conv { 3 } else { 2 + (mix(seed, 1) % 2) as usize };
     let barrier = Arc::new(Barrier::new(nthreads));
     let mut plans: Vec<Vec<Op>> = Vec::new();
     for t in 0..nthreads {
         let mut ops = Vec::new();
         // the first operation of every thread reaches the lazily built fraction table
         ops.push(Op::Approx((mix(seed, 100 + t as u64) % APPROX.len() as u64) as usize));
+        if fit {
+            // four threads converting and fitting quantities on a cold converter from the very
+            // first operation: whatever the converter caches per unit on first use is contended
+            ops.clear();
+            for k in 0..64 {
+                let r = mix(seed, 5000 + (t * 128 + k) as u64);
+                let q = ((r >> 8) % QUANTS.len() as u64) as usize;
+                ops.push(if r % 8 == 0 { Op::ConvertQ(q) } else { Op::TryFraction(q) });
+            }
+            plans.push(ops);
+            continue;
+        }
         if conv {
             // many short operations on the shared converter: contention on whatever it
             // shares behind `&self`
@@ -163,11 +190,31 @@ fn main() {
         all.extend(h.join().expect("worker thread panicked"));
     }
     let mut bad = 0;
+    // (1) the shared parsers, used again sequentially, give what the threads got
     for (op, got) in &all {
         let again = run(&parsers, *op);
         if &again != got {
             bad += 1;
             println!("COOKMIRI-MISMATCH {op:?}\n concurrent: {got}\n sequential: {again}");
+        }
+    }
+    // (2) ... and so do parsers of the same configuration built separately and never shared:
+    // state corrupted for good by a race answers consistently wrong on the shared parsers
+    let reference: Vec<CooklangParser> = if full || conv {
+        vec![CooklangParser::extended(), CooklangParser::new(Extensions::COMPAT, Converter::empty())]
+    } else {
+        vec![CooklangParser::new(Extensions::all(), Converter::empty()), CooklangParser::canonical()]
+    };
+    let mut seen: Vec<Op> = Vec::new();
+    for (op, got) in &all {
+        if seen.contains(op) {
+            continue;
+        }
+        seen.push(*op);
+        let fresh = run(&reference, *op);
+        if &fresh != got {
+            bad += 1;
+            println!("COOKMIRI-MISMATCH {op:?}\n concurrent (shared parser): {got}\n never-shared parser:         {fresh}");
         }
     }
     // two threads that ran the same operation must agree with each other, too
